@@ -146,7 +146,7 @@ def gen_components(ch, sim, log):
             c = AccessControl(cfg)
             d = f"AccessControl(v{v})"
         else:
-            v = ch.choose("ca", 5)
+            v = ch.choose("ca", 6)
             rules = [
                 [CertificateAuthPathRule(prefix="/", require_cert=True)],
                 [CertificateAuthPathRule(prefix="/up/", require_cert=True),
@@ -154,6 +154,8 @@ def gen_components(ch, sim, log):
                 [CertificateAuthPathRule(prefix="/", allowed_fingerprints={fx.fp("cli_rsa1")})],
                 [CertificateAuthPathRule(prefix="/", allowed_fingerprints={fx.fp("cli_ed1")})],
                 [CertificateAuthPathRule(prefix="/", allowed_fingerprints={fx.fp("cli_same1")})],
+                # a whitelist from which the last entry was removed: nobody is allowed
+                [CertificateAuthPathRule(prefix="/", allowed_fingerprints=set())],
             ][v]
             c = CertificateAuth(CertificateAuthConfig(path_rules=rules))
             d = f"CertificateAuth(v{v})"
@@ -180,6 +182,8 @@ def policy_model(descr, path, ip, fp):
             return "60" if (path.startswith("/up/") and not fp) else "allow"
         if not fp:
             return "60"
+        if v == "v5":
+            return "61"
         return "allow" if fp == fx.fp(_CA_WHITELIST[v]) else "61"
     return None
 
